@@ -5,7 +5,9 @@ package dnsserver
 import (
 	"context"
 	"sync"
+	"time"
 
+	"github.com/AdguardTeam/golibs/syncutil"
 	"github.com/miekg/dns"
 )
 
@@ -71,6 +73,67 @@ func verifC01Wire(lo, hi int) {
 		}
 	} else {
 		// only a message with the QR bit set is ignored without a response
+		verifAssert("only-responses-are-ignored", probe.Response && h.calls == 0)
+		verifReach("dropped")
+	}
+}
+
+// VerifC01TCP: a framed query over TCP/DoT is answered exactly once with its own ID,
+// whatever length the previous message on the recycled read buffer had and however
+// small the pooled buffer is.
+//
+//verif:harness name=H01f-tcp tier=quick bounds="framed query of 12 or 15 bytes (as H01b-wire) in 1 or 2 chunks; pooled read buffer of 64 or 14 bytes left at length 8/14/48 by an earlier message; handler answers every accepted query" reach=answered,dropped maxpaths=200000 fanout=70
+//verif:assume sync.Pool hands the most recently released buffer back; worker pool inline
+func VerifC01TCP() { verifC01TCP([]int{12, 15}) }
+
+// VerifC01TCPLong is VerifC01TCP over every length 12..19.
+//
+//verif:harness name=H01f-tcp-long tier=thorough bounds="as H01f-tcp with every length 12..19" reach=answered,dropped maxpaths=5000000 fanout=70
+//verif:assume sync.Pool hands the most recently released buffer back; worker pool inline
+func VerifC01TCPLong() { verifC01TCP([]int{12, 13, 14, 15, 16, 17, 18, 19}) }
+
+func verifC01TCP(lens []int) {
+	verifPoolMode(1)
+	n := lens[verifChoice(len(lens))]
+	msg := verifWireMsg(n)
+	data := append([]byte{byte(n >> 8), byte(n)}, msg...)
+	split := 0
+	if verifChoice(2) == 1 {
+		split = 1 + verifChoice(2)
+	}
+	bufSize := []int{64, 14}[verifChoice(2)]
+	h := &verifAnswering{}
+	m := &verifMetrics1{}
+	s := verifNewDNS(h, bufSize)
+	s.metrics = m
+	bp := s.tcpPool.Get()
+	prevLen := []int{8, 14, 48}[verifChoice(3)]
+	if prevLen > bufSize {
+		prevLen = bufSize
+	}
+	*bp = (*bp)[:prevLen]
+	s.tcpPool.Put(bp)
+
+	conn := &verifTCPConn{data: data, split: split}
+	wg := &sync.WaitGroup{}
+	panicked := verifCatch(func() {
+		_ = s.acceptTCPMsg(conn, wg, &sync.Mutex{}, time.Second, syncutil.EmptySemaphore{})
+		wg.Wait()
+	})
+	verifAssert("no-panic", !panicked && m.panics == 0)
+	verifAssert("at-most-one-response", len(conn.written) <= 1)
+	probe := &dns.Msg{}
+	if probe.Unpack(msg) != nil {
+		verifAssert("undecodable-input-is-dropped-silently", len(conn.written) == 0 && h.calls == 0)
+		verifReach("dropped")
+		return
+	}
+	if len(conn.written) == 1 {
+		out := conn.written[0]
+		verifAssert("response-is-framed-with-its-exact-length", len(out) >= 14 && int(out[0])<<8|int(out[1]) == len(out)-2)
+		verifAssert("response-carries-the-request-id", out[2] == msg[0] && out[3] == msg[1])
+		verifReach("answered")
+	} else {
 		verifAssert("only-responses-are-ignored", probe.Response && h.calls == 0)
 		verifReach("dropped")
 	}
